@@ -44,7 +44,8 @@ def to_sf_schema(schema: pa.Schema, rowtype: list[ColumnInfo]) -> pa.Schema:
 
 
 def to_ipc(table: pa.Table) -> pa.Buffer:
-    batches = table.to_batches()
+    # a result bigger than the engine's chunk size arrives as several chunks: serialise it as the one batch it is
+    batches = table.combine_chunks().to_batches()
     if len(batches) != 1:
         raise NotImplementedError(f"{len(batches)} batches")
     batch = batches[0]
